@@ -23,7 +23,7 @@ type slot struct {
 
 var slots = []slot{
 	{"attr-name", 8}, {"action-name", 5}, {"entity-annotations", 4}, {"attr-annotations", 3}, {"shape", 3}, {"appliesTo", 5}, {"optional", 2},
-	{"attr-type", 15}, {"enum", 4}, {"action-parents", 4}, {"placement", 3}, {"tags", 5}, {"entity-parents", 5}, {"common-type", 5}, {"ns-annotations", 3}, {"action-annotations", 3},
+	{"attr-type", 15}, {"enum", 4}, {"action-parents", 5}, {"placement", 3}, {"tags", 5}, {"entity-parents", 5}, {"common-type", 5}, {"ns-annotations", 3}, {"action-annotations", 3},
 }
 
 var attrNames = []types.String{"a", "if", "k k", "q\"uote\\", "", "é", "entity", "in"}
@@ -135,6 +135,9 @@ func build(c []int) *sast.Schema {
 		aparents = []sast.ParentRef{sast.NewParentRef("Action", "all")}
 	case 3:
 		aparents = []sast.ParentRef{sast.ParentRefFromID("all"), sast.NewParentRef("Other::Action", "o x")}
+	case 4:
+		// the bare type `Action` names the EMPTY namespace's action group, also from inside a namespace
+		aparents = []sast.ParentRef{sast.NewParentRef("Action", "top")}
 	}
 	actions := sast.Actions{actionNames[c[1]]: sast.Action{Annotations: ann(c[15]), Parents: aparents, AppliesTo: applies}, "all": sast.Action{}}
 	ctypes := sast.CommonTypes{"T": sast.CommonType{Type: sast.Long()}, "Ctx": sast.CommonType{Type: sast.RecordType{"c": sast.Attribute{Type: sast.Type("T"), Optional: true}}}}
@@ -173,6 +176,12 @@ func build(c []int) *sast.Schema {
 			a.Parents = []sast.ParentRef{sast.NewParentRef("NS::Sub::Action", "all")}
 			actions[actionNames[c[1]]] = a
 		}
+	}
+	if c[9] == 4 {
+		if s.Actions == nil {
+			s.Actions = sast.Actions{}
+		}
+		s.Actions["top"] = sast.Action{}
 	}
 	if c[9] == 3 {
 		if s.Namespaces == nil {
@@ -396,7 +405,7 @@ func Check() *core.Check {
 	return &core.Check{
 		ID:    "C17",
 		Title: "Schema codecs round-trip and preserve the resolved schema",
-		Rule: "bounded deviation enumeration: a base schema using every construct, with 16 feature slots (names needing quotes for attributes and actions, annotations with / without value on namespaces, entities, attributes, actions and common types, empty / missing shapes, all appliesTo forms, optional attributes, 15 attribute types incl. nested records, sets, entity and extension references, common and built-in type references, enums with 0-3 values, action parents unqualified / qualified / cross-namespace, placement at top level / in a namespace / in a nested namespace, tags, parent lists, common-type chains); every configuration with at most the stated number of slots deviating from the base; oracle: Resolve(parse(render(S))) equals Resolve(S) for text and JSON (canonical form: maps sorted, parent / appliesTo lists as sets, nil == empty), second rendering byte-identical, text->JSON and JSON->text commute with Resolve, resolution errors preserved; " +
+		Rule: "bounded deviation enumeration: a base schema using every construct, with 16 feature slots (names needing quotes for attributes and actions, annotations with / without value on namespaces, entities, attributes, actions and common types, empty / missing shapes, all appliesTo forms, optional attributes, 15 attribute types incl. nested records, sets, entity and extension references, common and built-in type references, enums with 0-3 values, action parents unqualified / qualified / cross-namespace / bare `Action::` naming the empty namespace from inside a namespace, placement at top level / in a namespace / in a nested namespace, tags, parent lists, common-type chains); every configuration with at most the stated number of slots deviating from the base; oracle: Resolve(parse(render(S))) equals Resolve(S) for text and JSON (canonical form: maps sorted, parent / appliesTo lists as sets, nil == empty), second rendering byte-identical, text->JSON and JSON->text commute with Resolve, resolution errors preserved; " +
 			"a configuration is non-trivial if the schema resolves",
 		Assumptions: []string{"Resolve itself is the reference for what a schema means"},
 		Families: func(tier string) []*core.Family {
